@@ -52,6 +52,9 @@ def run(ctx):
             # "a float consumer never reads integer bytes and an integer consumer never reads float bytes": every operand of
             # every original operator has the dtype its resolved mode prescribes (the C03 oracle, run on the tied models)
             orc.oracle_c03(ctx, case, res, fp.failer(ctx, case, prefix="[consumer dtype] "))
+            # a constant read by several operators must suit EVERY reader: e.g. one bias tensor shared by two operators has to carry
+            # input scale x weight scale of each of them (the op-level rules of C04, which need no statistics)
+            orc.oracle_c04(ctx, case, res, fp.failer(ctx, case, prefix="[every reader's rule] "), {})
             exported_constants(ctx, case, res, fp.failer(ctx, case))
     n = 600 if ctx.tier == "quick" else 4000
     fp.explore(ctx, drv, n // 2, per_case, gen=fp.gen_tied_case, graph_corr=True, pipe_corr=True)
